@@ -564,6 +564,11 @@ func checkC20(rc *RunCtx) *Report {
 					notes = append(notes, lastWhy)
 				}
 			}
+			if n, diff := x.ValidateOnRealAtomix(envInt("VERIF_VALIDATE", 3)); diff != "" {
+				rep.HarnessErr = "trace validation on the real atomix runtime: " + diff
+			} else {
+				out.Numbers["traces_validated"] += int64(n)
+			}
 			out.Numbers["states"] += int64(x.States)
 			out.Numbers["transitions"] += int64(x.Transitions)
 			out.Numbers["transitions_judged"] += int64(judged)
